@@ -1,13 +1,22 @@
 (** C02 — executable model of the skyway oracle (x/skyway/keeper/attestation.go: Attest,
-    TryAttestation, processAttestation; x/skyway/abci.go: attestationTally, pruneAttestations;
-    x/skyway/keeper/keeper.go: overrideNonce, UpdateValidatorNoncesToLatest, the EVM chain
-    activation subscriber).  One remote chain (every store of the module is prefixed by the chain
-    reference id, so chains are independent copies of this state).  Definitions only.
+    TryAttestation, processAttestation; x/skyway/keeper/attestation_handler.go: the three handlers;
+    x/skyway/abci.go: attestationTally, pruneAttestations; x/skyway/keeper/keeper.go: overrideNonce,
+    UpdateValidatorNoncesToLatest, the EVM chain activation subscriber; x/skyway/keeper/genesis.go:
+    ExportGenesis / InitGenesis of attestations and nonces).  This file is ONE remote chain (every
+    store of the module is prefixed by the chain reference id); several chains in one history are
+    Skyway/OracleChains.v, built on the [step] of this file.  Definitions only.
 
     Validators are integers; a claim is its event nonce, its hash class [c_h] (the harness supplies
     the real ClaimHash, so nothing is assumed about the hash), the remote block height, the compass
-    (bridge deployment) id it names (0 = ""), and its effect (receiver, amount, whether the token is a
-    registered bridge token = whether the handler can apply it).
+    (bridge deployment) id it names (0 = ""), its type [c_kind] and the type's effect fields:
+
+      kind 0  MsgSendToPalomaClaim      c_rcv receiver, c_amt amount, c_tok: the token is a registered
+                                        bridge token of this chain (the handler can mint)
+      kind 1  MsgBatchSendToRemoteClaim c_rcv token contract, c_amt batch nonce (c_tok unused); the
+                                        handler can run iff that batch is pending and not timed out
+      kind 2  MsgLightNodeSaleClaim     c_rcv client, c_amt amount, c_tok: the claim names the chain's
+                                        registered sale contract; the handler can run iff it does and
+                                        the client holds no licence yet
 
     Three things come from the translated source (Gen.C02): the threshold 66 / 100, whether Attest
     appends a vote only when it is not yet in [Votes] ([vote_dedup]), and whether TryAttestation
@@ -20,7 +29,7 @@ Import ListNotations.
 Open Scope Z_scope.
 
 Record claim := mkClaim {
-  c_nonce : Z; c_h : Z; c_height : Z; c_compass : Z; c_rcv : Z; c_amt : Z; c_tok : bool }.
+  c_nonce : Z; c_h : Z; c_height : Z; c_compass : Z; c_kind : Z; c_rcv : Z; c_amt : Z; c_tok : bool }.
 
 Record att := mkAtt { a_votes : list Z; a_obs : bool; a_claim : claim }.
 
@@ -34,25 +43,33 @@ Record state := mkState {
   last_height : Z;                (* LastObservedEthereumBlockHeightKey (remote height) *)
   vnonce : list (Z * Z);          (* LastEventNonceByValidatorKey: only validators that have a record *)
   compass : Z;                    (* LatestCompassIDKey, 0 = "" *)
-  pw : list (Z * Z);              (* staking: last validator power *)
+  pw : list (Z * Z);              (* staking: last validator power (no record = 0) *)
   total : Z;                      (* staking: last total power *)
-  bal : list (Z * Z);             (* bank: what the handler minted to each receiver *)
+  bonded : list Z;                (* staking: validators that have a record with status Bonded *)
+  bal : list (Z * Z);             (* bank: what the deposit handler minted to each receiver *)
+  batches : list (Z * Z * Z);     (* pending outgoing batches of this chain: (token, batch nonce, timeout) *)
+  last_batch : Z;                 (* highest batch nonce handed out so far (KeyLastOutgoingBatchID) *)
+  lic : list (Z * Z);             (* light-node licences created by this chain's sale claims: client -> amount *)
   (* history variables (not state of the implementation) *)
   epoch : Z;                      (* number of cursor resets so far *)
   epoch_cursor : Z;               (* value the cursor was given by the last reset *)
   applied : list entry            (* effects in the order they took place *)
 }.
 
-Definition init : state := mkState [] 0 0 [] 0 [] 0 [] 0 0 [].
+Definition init : state := mkState [] 0 0 [] 0 [] 0 [] [] [] 0 [] 0 0 [].
 
 Inductive op :=
-| Vote (v : Z) (known : bool) (c : claim)  (* a *Claim message; [known]: the orchestrator is a bonded validator *)
+| Vote (v : Z) (known : bool) (c : claim)  (* a *Claim message; [known]: the orchestrator address is a validator operator's *)
 | Tally                                    (* attestationTally *)
 | Prune                                    (* pruneAttestations *)
 | SetPowers (p : list (Z * Z)) (t : Z)     (* staking end-block changes powers *)
+| SetBonded (l : list Z)                   (* staking: who has a validator record with status Bonded *)
 | CatchUp                                  (* UpdateValidatorNoncesToLatest *)
 | Override (n : Z)                         (* governance MsgNonceOverrideProposal *)
-| Activate (id : Z).                       (* EVM chain activation: new compass id, cursor to 0 *)
+| Activate (id : Z)                        (* EVM chain activation: new compass id, cursor to 0 *)
+| MkBatch (tok bn timeout : Z)             (* BuildOutgoingTXBatch stored a batch of this chain *)
+| DropBatch (tok bn : Z)                   (* CancelOutgoingTXBatch *)
+| Regenesis.                               (* ExportGenesis, wipe the module store, InitGenesis *)
 
 (** ** finite maps as sorted association lists *)
 Fixpoint zget (l : list (Z * Z)) (k : Z) : option Z :=
@@ -93,22 +110,49 @@ Fixpoint set_att (l : list (Z * Z * att)) (n h : Z) (a : att) : list (Z * Z * at
 Fixpoint mem (v : Z) (l : list Z) : bool :=
   match l with [] => false | x :: r => (v =? x) || mem v r end.
 
+(** pending batches: lookup / delete by (token, batch nonce) *)
+Definition bkeyb (tok bn : Z) (b : Z * Z * Z) : bool := (fst (fst b) =? tok) && (snd (fst b) =? bn).
+Fixpoint bget (l : list (Z * Z * Z)) (tok bn : Z) : option Z :=
+  match l with
+  | [] => None
+  | b :: r => if bkeyb tok bn b then Some (snd b) else bget r tok bn
+  end.
+Definition bdel (l : list (Z * Z * Z)) (tok bn : Z) : list (Z * Z * Z) :=
+  filter (fun b => negb (bkeyb tok bn b)) l.
+
 (** ** record updates *)
 Definition with_atts (s : state) x :=
-  mkState x (last_obs s) (last_height s) (vnonce s) (compass s) (pw s) (total s) (bal s) (epoch s) (epoch_cursor s) (applied s).
+  mkState x (last_obs s) (last_height s) (vnonce s) (compass s) (pw s) (total s) (bonded s) (bal s)
+          (batches s) (last_batch s) (lic s) (epoch s) (epoch_cursor s) (applied s).
 Definition with_last_obs (s : state) x :=
-  mkState (atts s) x (last_height s) (vnonce s) (compass s) (pw s) (total s) (bal s) (epoch s) (epoch_cursor s) (applied s).
+  mkState (atts s) x (last_height s) (vnonce s) (compass s) (pw s) (total s) (bonded s) (bal s)
+          (batches s) (last_batch s) (lic s) (epoch s) (epoch_cursor s) (applied s).
 Definition with_vnonce (s : state) x :=
-  mkState (atts s) (last_obs s) (last_height s) x (compass s) (pw s) (total s) (bal s) (epoch s) (epoch_cursor s) (applied s).
+  mkState (atts s) (last_obs s) (last_height s) x (compass s) (pw s) (total s) (bonded s) (bal s)
+          (batches s) (last_batch s) (lic s) (epoch s) (epoch_cursor s) (applied s).
 Definition with_powers (s : state) p t :=
-  mkState (atts s) (last_obs s) (last_height s) (vnonce s) (compass s) p t (bal s) (epoch s) (epoch_cursor s) (applied s).
+  mkState (atts s) (last_obs s) (last_height s) (vnonce s) (compass s) p t (bonded s) (bal s)
+          (batches s) (last_batch s) (lic s) (epoch s) (epoch_cursor s) (applied s).
+Definition with_bonded (s : state) l :=
+  mkState (atts s) (last_obs s) (last_height s) (vnonce s) (compass s) (pw s) (total s) l (bal s)
+          (batches s) (last_batch s) (lic s) (epoch s) (epoch_cursor s) (applied s).
+Definition with_bal (s : state) x :=
+  mkState (atts s) (last_obs s) (last_height s) (vnonce s) (compass s) (pw s) (total s) (bonded s) x
+          (batches s) (last_batch s) (lic s) (epoch s) (epoch_cursor s) (applied s).
+Definition with_batches (s : state) x lb :=
+  mkState (atts s) (last_obs s) (last_height s) (vnonce s) (compass s) (pw s) (total s) (bonded s) (bal s)
+          x lb (lic s) (epoch s) (epoch_cursor s) (applied s).
+Definition with_lic (s : state) x :=
+  mkState (atts s) (last_obs s) (last_height s) (vnonce s) (compass s) (pw s) (total s) (bonded s) (bal s)
+          (batches s) (last_batch s) x (epoch s) (epoch_cursor s) (applied s).
 
 (** ** Attest *)
 (** GetLastSkywayNonceByValidator: a validator without a record starts one below the cursor. *)
+Definition default_last (cur : Z) : Z := if 1 <=? cur then cur - 1 else 0.
 Definition val_last (s : state) (v : Z) : Z :=
   match zget (vnonce s) v with
   | Some x => x
-  | None => if 1 <=? last_obs s then last_obs s - 1 else 0
+  | None => default_last (last_obs s)
   end.
 
 (** ValidateBasic of the claim messages: the nonce is a positive uint64. *)
@@ -123,9 +167,20 @@ Definition vote_att (s : state) (c : claim) : att :=
   | None => mkAtt [] false c
   end.
 
-(** Is the vote accepted in state [s]? *)
+(** msgServer.BatchSendToRemoteClaim / additionalPatchChecks: an executed-batch claim for a batch that
+    is still pending is refused when its remote height is not below the batch's timeout. *)
+Definition batch_precheck (s : state) (c : claim) : bool :=
+  if c_kind c =? 1 then
+    match bget (batches s) (c_rcv c) (c_amt c) with
+    | Some timeout => c_height c <? timeout
+    | None => true
+    end
+  else true.
+
+(** Is the vote accepted in state [s]?  checkOrchestratorValidatorInSet: the orchestrator is the
+    operator of a validator that has a staking record ([known]) whose status is Bonded. *)
 Definition vote_ok (s : state) (v : Z) (known : bool) (c : claim) : bool :=
-  known && valid_claim c && (c_nonce c =? u64 (val_last s v + 1))
+  known && mem v (bonded s) && batch_precheck s c && valid_claim c && (c_nonce c =? u64 (val_last s v + 1))
   && (c_height (a_claim (vote_att s c)) =? c_height c).
 
 Definition vote (s : state) (v : Z) (known : bool) (c : claim) : state :=
@@ -154,15 +209,34 @@ Fixpoint fire_prefix (p : list (Z * Z)) (req acc : Z) (votes : list Z) : option 
 
 Definition badd (l : list (Z * Z)) (k x : Z) : list (Z * Z) := zset l k (zget0 l k + x).
 
+(** AttestationHandler.Handle: can the handler of this claim run to the end in state [s]? *)
+Definition applicable (s : state) (c : claim) : bool :=
+  if c_kind c =? 0 then c_tok c
+  else if c_kind c =? 1 then
+    match bget (batches s) (c_rcv c) (c_amt c) with
+    | Some timeout => c_height c <? timeout
+    | None => false
+    end
+  else if c_kind c =? 2 then
+    c_tok c && match zget (lic s) (c_rcv c) with None => true | Some _ => false end
+  else false.
+
+(** What the handler writes when it can run. *)
+Definition effect (s : state) (c : claim) : state :=
+  if c_kind c =? 0 then with_bal s (badd (bal s) (c_rcv c) (c_amt c))
+  else if c_kind c =? 1 then with_batches s (bdel (batches s) (c_rcv c) (c_amt c)) (last_batch s)
+  else with_lic s (zset (lic s) (c_rcv c) (c_amt c)).
+
 (** Cursor and height written, attestation marked observed, handler run in a cache context
     (committed iff it succeeds; its error is swallowed). *)
 Definition fire (s : state) (a : att) : state :=
   let c := a_claim a in
-  mkState (set_att (atts s) (c_nonce c) (c_h c) (mkAtt (a_votes a) true c))
-          (c_nonce c) (c_height c) (vnonce s) (compass s) (pw s) (total s)
-          (if c_tok c then badd (bal s) (c_rcv c) (c_amt c) else bal s)
-          (epoch s) (epoch_cursor s)
-          (applied s ++ [mkEntry (epoch s) c (c_tok c)]).
+  let ok := applicable s c in
+  let s1 := mkState (set_att (atts s) (c_nonce c) (c_h c) (mkAtt (a_votes a) true c))
+          (c_nonce c) (c_height c) (vnonce s) (compass s) (pw s) (total s) (bonded s) (bal s)
+          (batches s) (last_batch s) (lic s) (epoch s) (epoch_cursor s)
+          (applied s ++ [mkEntry (epoch s) c ok]) in
+  if ok then effect s1 c else s1.
 
 (** Result: the new state and whether TryAttestation returned nil (an error aborts the tally). *)
 Definition try_att (s : state) (a : att) : state * bool :=
@@ -209,8 +283,28 @@ Definition catch_up (s : state) : state :=
   with_vnonce s (map (fun kv => (fst kv, if snd kv <? last_obs s then last_obs s else snd kv)) (vnonce s)).
 
 Definition override (s : state) (n : Z) (cid : Z) : state :=
-  mkState (atts s) n (last_height s) (map (fun kv => (fst kv, n)) (vnonce s)) cid (pw s) (total s) (bal s)
-          (epoch s + 1) n (applied s).
+  mkState (atts s) n (last_height s) (map (fun kv => (fst kv, n)) (vnonce s)) cid (pw s) (total s) (bonded s) (bal s)
+          (batches s) (last_batch s) (lic s) (epoch s + 1) n (applied s).
+
+(** ** batches of this chain *)
+Definition mk_batch (s : state) (tok bn timeout : Z) : state :=
+  if last_batch s <? bn then with_batches s (batches s ++ [(tok, bn, timeout)]) bn else s.
+Definition drop_batch (s : state) (tok bn : Z) : state := with_batches s (bdel (batches s) tok bn) (last_batch s).
+
+(** ** genesis export + import.  Exported: the cursor and the attestations GetAttestationMapping
+    lists (those of the latest compass id).  NOT exported: the compass id, the last remote height and
+    the per-validator nonce records; InitGenesis rebuilds the records from the vote lists (a
+    validator's record becomes the highest nonce it voted on, when that is above what it would get
+    without a record). *)
+Definition imp_vote (cur : Z) (vn : list (Z * Z)) (n v : Z) : list (Z * Z) :=
+  let last := match zget vn v with Some x => x | None => default_last cur end in
+  if last <? n then zset vn v n else vn.
+Definition import_vnonce (cur : Z) (l : list (Z * Z * att)) : list (Z * Z) :=
+  fold_left (fun vn x => fold_left (fun vn v => imp_vote cur vn (fst (fst x)) v) (a_votes (snd x)) vn) l [].
+Definition regenesis (s : state) : state :=
+  let kept := filter (in_compass s) (atts s) in
+  mkState kept (last_obs s) 0 (import_vnonce (last_obs s) kept) 0 (pw s) (total s) (bonded s) (bal s)
+          (batches s) (last_batch s) (lic s) (epoch s) (epoch_cursor s) (applied s).
 
 Definition step (s : state) (o : op) : state :=
   match o with
@@ -218,9 +312,13 @@ Definition step (s : state) (o : op) : state :=
   | Tally => fst (tally s)
   | Prune => prune s
   | SetPowers p t => with_powers s p t
+  | SetBonded l => with_bonded s l
   | CatchUp => catch_up s
   | Override n => override s (u64 n) (compass s)   (* the message field is a uint64 *)
   | Activate id => override s 0 id
+  | MkBatch tok bn timeout => mk_batch s tok bn timeout
+  | DropBatch tok bn => drop_batch s tok bn
+  | Regenesis => regenesis s
   end.
 
 Definition run (ops : list op) : state := fold_left step ops init.
@@ -240,6 +338,14 @@ Definition nonces_of_epoch (ep : Z) (l : list entry) : list Z :=
 Fixpoint zseq (c : Z) (k : nat) : list Z :=
   match k with O => [] | S k' => c :: zseq (c + 1) k' end.
 
-(** What the handler minted to [r] according to the effect log. *)
+(** What the deposit handler minted to [r] according to the effect log. *)
 Definition minted (r : Z) (l : list entry) : Z :=
-  zsum (map (fun e => if e_ok e && (c_rcv (e_claim e) =? r) then c_amt (e_claim e) else 0) l).
+  zsum (map (fun e => if e_ok e && (c_kind (e_claim e) =? 0) && (c_rcv (e_claim e) =? r) then c_amt (e_claim e) else 0) l).
+
+(** Effects of one type whose handler ran. *)
+Definition ok_kind (k : Z) (e : entry) : bool := e_ok e && (c_kind (e_claim e) =? k).
+Definition subject (e : entry) : Z * Z := (c_rcv (e_claim e), c_amt (e_claim e)).
+
+(** Operations that reset the cursor or re-create the stores (a stall lasts until one of them). *)
+Definition is_reset (o : op) : bool :=
+  match o with Override _ | Activate _ | Regenesis => true | _ => false end.
